@@ -87,6 +87,11 @@ func (store *Store) pathForKey(key string) string {
 
 // Has implements go-ipld-prime/storage.Storage.Has.
 func (store *Store) Has(ctx context.Context, key string) (bool, error) {
+	if key == "" {
+		// The empty key cannot be stored (it is the abort signal of the PutStream commit function),
+		// and its path would be a shard directory.
+		return false, nil
+	}
 	_, err := os.Stat(store.pathForKey(key))
 	if err == nil {
 		return true, nil
@@ -132,6 +137,9 @@ func (store *Store) GetStream(ctx context.Context, key string) (io.ReadCloser, e
 	if ctx.Err() != nil {
 		return nil, ctx.Err()
 	}
+	if key == "" {
+		return nil, os.ErrNotExist // the empty key cannot be stored: see Has.
+	}
 
 	// Figure out where we expect it to be.
 	destpath := store.pathForKey(key)
@@ -165,7 +173,13 @@ func (store *Store) PutStream(ctx context.Context) (io.Writer, func(string) erro
 				return err
 			}
 			if key == "" {
-				return os.Remove(stagepath)
+				// Abort: drop the staging file.  Nothing was committed, so this is reported as an error;
+				// Put ignores it on its own abort path, but Put(ctx, "", ...) and PutVec(ctx, "", ...)
+				// must not claim success for a block that was thrown away.
+				if err := os.Remove(stagepath); err != nil {
+					return err
+				}
+				return fmt.Errorf("fsstore: nothing committed: empty key")
 			}
 			// n.b. there is a lack of fsync here.  I am going to choose to believe that a sane filesystem will not let me do a 'move' without flushing somewhere in between.
 			// Fun little note: there are some times in history where this belief is not backed -- but, mostly, the evolution of kernel and filesystem development seems to have considered that a mistake,
